@@ -447,7 +447,7 @@ pub fn run(prop: &str, tier: &str, only: Option<String>) -> i32 {
         "C04" => "every (type, value) of the universe: library bytes == model bytes; every assignment of alternative forms (unknown-size sequences, re-plain dedup strings) decoded by the library; non-trivial = forward and backward both executed".into(),
         "C07" => "every (type, value) x 8 suffixes decoded from a DeserializationContext; non-trivial = non-empty encoding".into(),
         "C08" => "every cut point of every encoding (all of them up to 600 bytes, boundary-heavy subset beyond); non-trivial = encoding with at least one cut point".into(),
-        _ => "every (type, value) through six sinks on the same instance; non-trivial = non-empty encoding".into(),
+        _ => "every (type, value) through six sinks on the same instance; every operation sequence (depth <= 3 / 4, 22 operations with extreme counts) on SliceInput, OwnedInput, DeserializationContext and a DeserializationContext inside a chunk of an evolved record: step-by-step agreement and agreement with a reference cursor; every script (length <= 2 / 3) of the 18 output primitives issued by a field codec at top level, in a plain record and in chunk 0 / 1 of an evolved record, through Vec, BytesMut and SizeCalculator: bytes == the format's framing around the primitives' prescribed bytes; non-trivial = non-empty encoding".into(),
     };
     run.bounds = json!({"types": types.len(), "params": format!("{:?}", common::params(&run)), "universe_thorough": universe::THOROUGH});
     run.assumptions = vec![
@@ -504,7 +504,12 @@ pub fn run(prop: &str, tier: &str, only: Option<String>) -> i32 {
         let depth = if thorough { 4 } else { 3 };
         let st = crate::p_inputs::explore("C15", depth, &run.only);
         run.stats.merge(st);
-        run.extra.insert("source_exploration".into(), json!({"operations": 22, "depth": depth, "inputs": "all strings of length <= 3 over the 12-byte alphabet + 2 compressed frames", "counts": ["0", "1", "2", "rest", "rest+1", "2^31", "usize::MAX-pos", "usize::MAX"]}));
+        run.extra.insert("source_exploration".into(), json!({"operations": 22, "depth": depth, "inputs": "all strings of length <= 3 over the 12-byte alphabet + 2 compressed frames", "counts": ["0", "1", "2", "rest", "rest+1", "2^31", "usize::MAX-pos", "usize::MAX"], "implementations": ["SliceInput", "OwnedInput", "DeserializationContext", "DeserializationContext inside chunk 1 of an evolved record (region at a non-zero offset, data after it)"]}));
+        // sinks: every script of output primitives issued by a field codec, in four placements
+        let wdepth = if thorough { 3 } else { 2 };
+        let st = crate::p_inputs::explore_writes(wdepth, &run.only);
+        run.stats.merge(st);
+        run.extra.insert("sink_primitive_exploration".into(), json!({"primitives": 18, "depth": wdepth, "placements": ["top level", "plain record field", "chunk 0 of an evolved record", "chunk 1 of an evolved record"], "sinks": ["Vec<u8>", "BytesMut", "SizeCalculator"]}));
     }
     let mut code = 0;
     if matches!(prop, "C07" | "C08") {
